@@ -718,7 +718,7 @@ pub fn minimise(plan: &Plan, v: &Violation, props: &[String], budget: usize) -> 
             "candidates_tried": tries,
         }),
         plan: cur,
-        build: if cfg!(feature = "async_flavour") { None } else { Some("default-features".to_string()) },
+        build: crate::check::build_label().map(|l| l.to_string()),
     })
 }
 
